@@ -28,9 +28,14 @@ def combsweep_replay(run, case):
     e = catalog.by_name(c['block'])
     cfg = _tup(c['cfg'])
     hw = py4hw.HWSystem()
-    with muted():
-        ins, outs = e.build(hw, cfg, hw.wire)
-        sim = hw.getSimulator()
+    import contextlib
+    if c.get('shared_inputs'):
+        from .combsweep import build_aliased
+        ins, outs, sim, hw = build_aliased(e, cfg, c['shared_inputs'])
+    else:
+        with muted(), (catalog.hostile_lists(c['caller_list']) if c.get('caller_list') else contextlib.nullcontext()):
+            ins, outs = e.build(hw, cfg, hw.wire)
+            sim = hw.getSimulator()
     for w, v in zip(ins, c['inputs']):
         w.put(int(v, 16) if isinstance(v, str) else v)
     sim.propagateAll()
